@@ -117,7 +117,7 @@ def _uf_limiter(ctx):
     return lambda r: np.exp(-np.asarray(r, dtype=float) ** 2)
 
 
-def tvd_units(ctx, g, dims, limiter):
+def tvd_units(ctx, g, dims, limiter, part=None):
     """TVD correction scales by K/T; decided on the face basis (separability: tvd_separable), each obligation
     split into the sign cubes of the successive differences in its stencil and of the face velocity"""
     nd = len(dims)
@@ -131,7 +131,9 @@ def tvd_units(ctx, g, dims, limiter):
     thr = 1e-16
     G = scen.cell_index(dims)
     tag = 'C17/%s/%s/tvd_units/%s' % (g, 'x'.join(map(str, dims)), limiter)
-    for ax, fidx in ops.faces(dims):
+    for fi, (ax, fidx) in enumerate(ops.faces(dims)):
+        if part is not None and fi % part[1] != part[0]:
+            continue        # the faces of one grid are spread over several tasks (wall time only; obligation ids unchanged)
         cs = getattr(m0.cellsize, ('_x', '_y', '_z')[ax])
         sL = L if scen.axis_kind(g, ax) == 'len' else 1.0
         r0 = pf.convectionTVDupwindRHSTerm(scen.unit_face(ctx, m0, ax, fidx, c), p0, FL)
@@ -283,9 +285,11 @@ def scenarios(tier):
                       'timeout': 30, 'validate': 1})
         for dims in TV[nd]:
             ds = 'x'.join(map(str, dims))
+            nparts = {1: 1, 2: 3, 3: 6}[nd] if tier == 'quick' else {1: 2, 2: 6, 3: 12}[nd]
             for lim in (('SUPERBEE',) if tier == 'quick' else ('SUPERBEE', 'VanLeer', 'CHARM')):
-                T.append({'name': 'tvd_units/%s/%s/%s' % (g, ds, lim), 'fn': 'pv.props.c17:tvd_units',
-                          'params': {'g': g, 'dims': dims, 'limiter': lim}, 'timeout': 20, 'validate': 1, 'batch': 1})
+                for k in range(nparts):
+                    T.append({'name': 'tvd_units/%s/%s/%s/part%d' % (g, ds, lim, k), 'fn': 'pv.props.c17:tvd_units',
+                              'params': {'g': g, 'dims': dims, 'limiter': lim, 'part': [k, nparts]}, 'timeout': 20, 'validate': 1, 'batch': 1})
             T.append({'name': 'tvd_separable/%s/%s/UF' % (g, ds), 'fn': 'pv.props.c17:tvd_separable',
                       'params': {'g': g, 'dims': dims, 'limiter': 'UF'}, 'timeout': 60, 'validate': 1, 'batch': 1})
     T.sort(key=lambda t: -int(np.prod(t['params']['dims'])) - (100 if 'Spherical' in t['name'] else 0) - (50 if 'tvd' in t['name'] else 0))
